@@ -461,7 +461,7 @@ def run_check(pid, tier, seed, replay=None):
     theorems = list(plugin.THEOREMS)
     tie_names = set(th_names_in(tie_files))
     # every theorem stated in a property file is an obligation, listed by the plugin or not
-    for t in th_names_in(hard_files):
+    for t in th_names_in(hard_files) + sorted(tie_names):
         if t not in theorems:
             theorems.append(t)
     tie_theorems = [t for t in theorems if t in tie_names]
